@@ -77,10 +77,17 @@ type C17Config struct {
 	MaxItems  int    `json:"max_items"` // 0 = unlimited
 	Transient int    `json:"transient"`
 	Pipeline  string `json:"pipeline"`
+	// Reenter: while the sink handles its k-th call, another trigger of the same job fires (job.Run is entered again;
+	// it gets no ticket and is skipped). 0 = no second trigger.
+	Reenter int `json:"reenter,omitempty"`
 }
 
 func (c C17Config) String() string {
-	return fmt.Sprintf("batch=%d entities=%d rejected=%v maxItems=%d transientFailures=%d pipeline=%s", c.B, 2*c.B, c.F, c.MaxItems, c.Transient, c.Pipeline)
+	s := fmt.Sprintf("batch=%d entities=%d rejected=%v maxItems=%d transientFailures=%d pipeline=%s", c.B, 2*c.B, c.F, c.MaxItems, c.Transient, c.Pipeline)
+	if c.Reenter > 0 {
+		s += fmt.Sprintf(" secondTriggerDuringSinkCall=%d", c.Reenter)
+	}
+	return s
 }
 
 func c17Run(cfg C17Config) (viol []engine.Violation, outcome string, herr string) {
@@ -122,6 +129,16 @@ func c17Run(cfg C17Config) (viol []engine.Violation, outcome string, herr string
 		fOrder = append(fOrder, ids[i])
 	}
 	fs := &failSink{inner: jb.pipeline.spec().sink, h: h, F: F, Transient: cfg.Transient}
+	if cfg.Reenter > 0 {
+		entered := false
+		fs.onCall = func(call int) error {
+			if call == cfg.Reenter && !entered {
+				entered = true
+				jb.Run() // a cron tick / change event for the same job while it is running: must be a no-op
+			}
+			return nil
+		}
+	}
 	jb.pipeline.spec().sink = fs
 	var rec *recHandler
 	for _, eh := range jb.errorHandlers {
@@ -209,10 +226,16 @@ type C17Rerun struct {
 	Delay      int      `json:"delay"`
 	Attempts   []string `json:"attempts"` // fail | ok | kill, outcome of attempt k (last one repeats)
 	WithLog    bool     `json:"with_log"`
+	// Triggers: number of triggers that fire one after the other before any re-run timer does (0 = 1)
+	Triggers int `json:"triggers,omitempty"`
 }
 
 func (c C17Rerun) String() string {
-	return fmt.Sprintf("reRun maxRetries=%d retryDelay=%ds attempts=%v log=%v", c.MaxRetries, c.Delay, c.Attempts, c.WithLog)
+	s := fmt.Sprintf("reRun maxRetries=%d retryDelay=%ds attempts=%v log=%v", c.MaxRetries, c.Delay, c.Attempts, c.WithLog)
+	if c.Triggers > 1 {
+		s += fmt.Sprintf(" triggersBeforeTimers=%d", c.Triggers)
+	}
+	return s
 }
 
 func c17RerunRun(cfg C17Rerun) (viol []engine.Violation, outcome string, herr string) {
@@ -257,8 +280,14 @@ func c17RerunRun(cfg C17Rerun) (viol []engine.Violation, outcome string, herr st
 	jb.pipeline = cp
 	s := vsync.NewSched(nil, 4000)
 	var panicked string
+	triggers := cfg.Triggers
+	if triggers < 1 {
+		triggers = 1
+	}
 	body := func() {
-		panicked = runJob(jb)
+		for i := 0; i < triggers && panicked == ""; i++ {
+			panicked = runJob(jb)
+		}
 	}
 	timedOut := s.Run([]func(){body}, []string{"trigger"}, 30*time.Second)
 	if timedOut || s.Deadlock || s.HorizonHit {
@@ -276,13 +305,23 @@ func c17RerunRun(cfg C17Rerun) (viol []engine.Violation, outcome string, herr st
 	if eff == 0 {
 		eff = 1
 	}
-	want := 1
+	// the triggers run one after the other, then the armed timers fire; every failed run arms one re-run while the
+	// budget lasts (the budget belongs to the job's handler, not to a single chain of runs)
+	want := triggers
+	budget := eff
+	pending := 0
 	for k := 0; k < len(cp.outcomes); k++ {
-		if cp.outcomes[k] == "fail" && want-1 < eff {
-			want++
-			continue
+		if k >= want {
+			break
 		}
-		break
+		if k >= triggers {
+			pending--
+		}
+		if cp.outcomes[k] == "fail" && budget > 0 {
+			budget--
+			pending++
+			want++
+		}
 	}
 	if totalRuns != want {
 		fail("rerun-count", fmt.Sprintf("the job ran %d times with outcomes %v, want %d runs (one run plus a re-run after each failed run, at most %d re-runs, none after success or kill)", totalRuns, cp.outcomes, want, eff))
@@ -296,7 +335,7 @@ func c17RerunRun(cfg C17Rerun) (viol []engine.Violation, outcome string, herr st
 			fail("rerun-delay", fmt.Sprintf("a re-run was scheduled after %v, configured delay is %ds", d, delay))
 		}
 	}
-	if len(s.TimerDurations) != totalRuns-1 {
+	if len(s.TimerDurations) != totalRuns-triggers {
 		fail("rerun-timers", fmt.Sprintf("%d runs but %d re-run timers", totalRuns, len(s.TimerDurations)))
 	}
 	return viol, fmt.Sprintf("runs=%d", totalRuns), ""
@@ -400,6 +439,12 @@ func init() {
 				for _, f := range subsets(2 * b) {
 					for _, mi := range []int{0, 1, 2, 3} {
 						logCfgs = append(logCfgs, C17Config{B: b, F: f, MaxItems: mi, Pipeline: pl})
+						if b <= 3 {
+							// a second trigger of the same job fires while the sink handles its 2nd / 4th call
+							for _, re := range []int{2, 4} {
+								logCfgs = append(logCfgs, C17Config{B: b, F: f, MaxItems: mi, Pipeline: pl, Reenter: re})
+							}
+						}
 					}
 				}
 				for tr := 1; tr <= 4; tr++ {
@@ -432,6 +477,14 @@ func init() {
 			}
 		}
 		rerun = append(rerun, C17Rerun{MaxRetries: 2, Delay: 0, Attempts: []string{"fail", "fail", "fail"}})
+		// several failing triggers within one retry delay
+		for mr := 1; mr <= 3; mr++ {
+			for tr := 2; tr <= 3; tr++ {
+				for _, sq := range [][]string{{"fail"}, {"fail", "fail", "ok"}, {"fail", "ok"}, {"ok", "fail"}} {
+					rerun = append(rerun, C17Rerun{MaxRetries: mr, Delay: 7, Attempts: sq, Triggers: tr})
+				}
+			}
+		}
 		var tasks []json.RawMessage
 		for i := 0; i < len(logCfgs); i += 60 {
 			e := i + 60
